@@ -24,6 +24,10 @@ def configs(tier, seed, mode):
         picks = [(('Pocket',), 0), (('Pocket',), rnd.randrange(1, 10)), (('Pocket',), 10)]
         h = rnd.randrange(0, 9)
         picks += [(('Suited', h), 0), (('Ofsuit', h), 0), (('Suited', rnd.randrange(0, 8)), rnd.randrange(1, 3)), (('Ofsuit', 10), 0), (('Suited', 11), 0)]
+        # the bottom of a suited and of an offsuit row (runs that end at the deuce kicker) in rows long enough to have a middle
+        hb = rnd.randrange(0, 8)
+        picks += [(('Suited', hb), len(rangefmt.row_pairs(('Suited', hb))) - 3), (('Ofsuit', rnd.randrange(0, 8)), None)]
+        picks = [(row, (len(rangefmt.row_pairs(row)) - 3) if off is None else off) for row, off in picks]
         for row, off in picks:
             n = len(rangefmt.row_pairs(row))
             w = min(3, n - off)
@@ -88,6 +92,8 @@ def token_roundtrip_worker(args):
 
 def native_roundtrip_bad(bins, spec):
     rc, kv, raw = replay(bins, 'debug', ['roundtrip', spec])
+    if 'panic' in kv:
+        return f"formatting / parsing the range panics natively: {kv['panic']}", raw
     if kv.get('equal') == 'false':
         return f"text {kv.get('text')!r} parses back to {kv.get('back')!r}, original {kv.get('orig')!r}", raw
     return '', raw
